@@ -244,6 +244,19 @@ func c03R4(c *Ctx) {
 	if ho != nil {
 		fns = append(fns, ho)
 	}
+	// helpers split off Execute (one call site each, returning Execute's three results) are checked like Execute itself
+	checked := map[*ssa.Function]bool{}
+	for _, f := range fns {
+		checked[f] = true
+	}
+	for i := 0; i < len(fns); i++ {
+		for _, h := range c.logicalBody(fns[i]) {
+			if !checked[h] && h.Parent() == nil && h.Signature.Results().Len() == 3 {
+				checked[h] = true
+				fns = append(fns, h)
+			}
+		}
+	}
 	nSuccess := 0
 	nRet := 0
 	for _, fn := range fns {
@@ -262,8 +275,8 @@ func c03R4(c *Ctx) {
 			key := fmt.Sprintf("return@%s#%d", c.fnName(fn), cnt)
 			// delegation to handleOutput
 			if ex, ok := res[0].(*ssa.Extract); ok {
-				if call, ok := ex.Tuple.(*ssa.Call); ok && call.Common().StaticCallee() == ho {
-					c.ok(rule, key, c.instrPos(ret), "delegates to handleOutput", false)
+				if call, ok := ex.Tuple.(*ssa.Call); ok && call.Common().StaticCallee() != nil && checked[call.Common().StaticCallee()] {
+					c.ok(rule, key, c.instrPos(ret), "delegates to "+c.fnName(call.Common().StaticCallee())+", whose returns are checked here too", false)
 					return
 				}
 			}
